@@ -3,7 +3,7 @@ from props import S
 CFG = {
     "properties_file": "Properties/C13.v",
     "corr_files": ["Corr/C13.v"],
-    "streams": [S("C13", "drive_codec", 900, 40000)],
+    "streams": [S("C13", "drive_codec", 600, 40000)],
     "rule": "Fixed boundary corpus first (string / opaque / handle / credential / verifier / gid-count / record lengths 0..9 "
             "and limit-1, limit, limit+1 for the limits 8192 / 400 / 64 / 16 / 1 MiB, declared lengths up to 2^32-1, every "
             "residue mod 4, every cut point of sample encodings), then seeded random cases: values encoded by the Go "
